@@ -1498,6 +1498,7 @@ impl Monitor for C03 {
             gen("streams", tier.pick(300_000, 6_000_000, 0)),
             gen("frames", tier.pick(80_000, 2_000_000, 0)),
             gen("random", 256 * tier.pick(3_000, 80_000, 0)),
+            gen("direct-new", 40 * tier.pick(64, 2_000, 0)),
         ]
     }
     fn rule(&self) -> String {
@@ -1719,6 +1720,7 @@ impl Monitor for C03 {
                 }
                 judge_input(&m, "frames/mhdr", &mut cx, col);
             }
+            "direct-new" => direct_new_case(idx, rng, col),
             "random" => {
                 let len = (idx % 256) as usize;
                 let mut v = rng.bytes(len);
@@ -1884,4 +1886,89 @@ fn san_cmd_input(var: u64, flav: u64, rng: &mut Prng) -> Vec<u8> {
         v.extend(fill(rng, fk, flav as usize % 4));
         v
     }
+}
+
+
+// ---- payload views built directly from a byte slice ----------------------------------------------
+
+/// `XxxPayload::new(&[u8])` of every command payload type that has one, on slices of every length
+/// 0..=39: whatever it returns, it must not panic, and a view it hands out must be safe to read.
+fn direct_new_case(idx: u64, rng: &mut Prng, col: &mut Collector) {
+    use lorawan::certification as ce;
+    use lorawan::maccommands as mc;
+    use lorawan::multicast as mu;
+    let len = (idx % 40) as usize;
+    let data: Vec<u8> = match (idx / 40) % 4 {
+        0 => vec![0u8; len],
+        1 => vec![0xFF; len],
+        _ => rng.bytes(len),
+    };
+    let kc = DefaultCrypto::new(&AES128([7; 16]));
+    let mut accepted = 0u64;
+    macro_rules! direct {
+        ($( $en:ident :: $var:ident ( $ty:ty ) ),* $(,)?) => {
+            $(
+                let r = trap(|| {
+                    match <$ty>::new(&data) {
+                        Ok(p) => {
+                            let c = $en::$var(p);
+                            c.touch(&kc);
+                            bb(c.cid_());
+                            bb(c.len_());
+                            bb(c.bytes_());
+                            true
+                        }
+                        Err(_) => false,
+                    }
+                });
+                col.eval(&format!("direct-new|{}|len{}|{}", stringify!($var), len.min(31), match &r { Ok(true) => "view", Ok(false) => "refused", Err(_) => "panic" }));
+                match r {
+                    Ok(true) => accepted += 1,
+                    Ok(false) => {}
+                    Err(t) => {
+                        col.violation(
+                            &format!("C03|direct-new|panic|{}|{}", stringify!($var), t.file()),
+                            "building a command payload view directly from a byte slice, or reading a view it handed out, panicked",
+                            json!({"type": stringify!($ty), "input": hex(&data), "len": len, "panic": t.msg, "loc": t.loc}),
+                        );
+                    }
+                }
+            )*
+        };
+    }
+    direct!(
+        DownlinkMacCommand::LinkCheckAns(mc::LinkCheckAnsPayload),
+        DownlinkMacCommand::LinkADRReq(mc::LinkADRReqPayload),
+        DownlinkMacCommand::DutyCycleReq(mc::DutyCycleReqPayload),
+        DownlinkMacCommand::RXParamSetupReq(mc::RXParamSetupReqPayload),
+        DownlinkMacCommand::NewChannelReq(mc::NewChannelReqPayload),
+        DownlinkMacCommand::RXTimingSetupReq(mc::RXTimingSetupReqPayload),
+        DownlinkMacCommand::TXParamSetupReq(mc::TXParamSetupReqPayload),
+        DownlinkMacCommand::DlChannelReq(mc::DlChannelReqPayload),
+        DownlinkMacCommand::DeviceTimeAns(mc::DeviceTimeAnsPayload),
+        UplinkMacCommand::LinkADRAns(mc::LinkADRAnsPayload),
+        UplinkMacCommand::RXParamSetupAns(mc::RXParamSetupAnsPayload),
+        UplinkMacCommand::DevStatusAns(mc::DevStatusAnsPayload),
+        UplinkMacCommand::NewChannelAns(mc::NewChannelAnsPayload),
+        UplinkMacCommand::DlChannelAns(mc::DlChannelAnsPayload),
+        DownlinkDUTCommand::AdrBitChangeReq(ce::AdrBitChangeReqPayload),
+        DownlinkDUTCommand::TxPeriodicityChangeReq(ce::TxPeriodicityChangeReqPayload),
+        DownlinkDUTCommand::TxFramesCtrlReq(ce::TxFramesCtrlReqPayload),
+        DownlinkDUTCommand::EchoIncPayloadReq(ce::EchoIncPayloadReqPayload),
+        UplinkDUTCommand::EchoIncPayloadAns(ce::EchoIncPayloadAnsPayload),
+        UplinkDUTCommand::RxAppCntAns(ce::RxAppCntAnsPayload),
+        UplinkDUTCommand::DutVersionsAns(ce::DutVersionsAnsPayload),
+        DownlinkRemoteSetup::McGroupStatusReq(mu::McGroupStatusReqPayload),
+        DownlinkRemoteSetup::McGroupSetupReq(mu::McGroupSetupReqPayload),
+        DownlinkRemoteSetup::McGroupDeleteReq(mu::McGroupDeleteReqPayload),
+        DownlinkRemoteSetup::McClassCSessionReq(mu::McClassCSessionReqPayload),
+        DownlinkRemoteSetup::McClassBSessionReq(mu::McClassBSessionReqPayload),
+        UplinkRemoteSetup::PackageVersionAns(mu::PackageVersionAnsPayload),
+        UplinkRemoteSetup::McGroupStatusAns(mu::McGroupStatusAnsPayload),
+        UplinkRemoteSetup::McGroupSetupAns(mu::McGroupSetupAnsPayload),
+        UplinkRemoteSetup::McGroupDeleteAns(mu::McGroupDeleteAnsPayload),
+        UplinkRemoteSetup::McClassCSessionAns(mu::McClassCSessionAnsPayload),
+        UplinkRemoteSetup::McClassBSessionAns(mu::McClassBSessionAnsPayload),
+    );
+    col.event_n("direct_new_views", accepted);
 }
